@@ -44,8 +44,9 @@ def snapshot(u):
 
 
 STRS = ["http://example.com/a/b?x=1&y=2#f", "http://u:p@h:8080/p%20q/r.txt", "https://[::1]:443/", "//h/a/../b", "/rel/path?q", "a/b", "", "http://bücher.example/ü?k=v",
-        "ftp://h", "http://h:80", "http://H/%7e", "mailto:x@y", "http://h/a?a=1&a=2&b=", "foo://:80/", "http://h/?a=%FF", "http://h/a%2Fb/c", "http://h/.a/b./c.tar.gz"]
-TEXTS = ["x", "a b", "é", "", "..", "a/b", "%41", "k+", "a&b", ".md", ".tar"]
+        "ftp://h", "http://h:80", "http://H/%7e", "http://a^b/p", "http://a b/", "x://a|b:81/q", "http://é^.com/", "mailto:x@y", "http://h/a?a=1&a=2&b=", "foo://:80/", "http://h/?a=%FF", "http://h/a%2Fb/c", "http://h/.a/b./c.tar.gz"]
+# "a^b", "a|b", "é^.com": host texts the parser stores but with_host / build(host=) reject — a result must not depend on which came first
+TEXTS = ["x", "a b", "é", "", "..", "a/b", "%41", "k+", "a&b", ".md", ".tar", "a^b", "a|b", "é^.com"]
 
 
 def gen_program(rng, n):
@@ -55,7 +56,7 @@ def gen_program(rng, n):
         if k < 0.12:
             prog.append(("new", rng.choice(STRS), rng.random() < 0.1))
         elif k < 0.22:
-            prog.append(("build", rng.choice(["http", "https", ""]), rng.choice(["h", "É.com", "::1", ""]), rng.choice([None, 80, 8080]), rng.choice(["", "/a b", "/x/../y"]),
+            prog.append(("build", rng.choice(["http", "https", ""]), rng.choice(["h", "É.com", "::1", "", "a^b", "a b"]), rng.choice([None, 80, 8080]), rng.choice(["", "/a b", "/x/../y"]),
                          rng.choice([None, {"a": "1"}, {"k": ["1", "2"]}, [("a", "b c")]])))
         elif k < 0.62:
             name = rng.choice(["with_scheme", "with_user", "with_password", "with_host", "with_port", "with_path", "with_query", "extend_query", "update_query",
